@@ -36,6 +36,8 @@ class Generator(CodeGenerator):
             {"type": "file", "path": out / "simgen_lists" / "enums.txt", "contents": "\n".join(e["name"] for e in d.get("enums", []))},
             {"type": "file", "path": out / "simgen.json", "contents": json.dumps(d, indent=1, sort_keys=True)},
             {"type": "file", "path": out / "simgen_names.txt", "contents": "\n".join(s["name"] for s in d.get("structs", []))},
+            # the same path returned a second time with other contents: the last returned contents are what must be on disk
+            {"type": "file", "path": out / "simgen_names.txt", "contents": "\n".join(sorted(s["name"] for s in d.get("structs", []))) + "\n# sorted\n"},
             {"type": "print", "contents": f"simgen: {len(d.get('structs', []))} structs"},
         ]
 
